@@ -348,7 +348,11 @@ def jsonParseMembers (fol : String → String) : Nat → List Char → R (List (
                 | d :: r4 =>
                   if d = ',' then
                     match jsonParseMembers fol fuel r4 with
-                    | .ok (kvs, r5) => .ok ((String.ofList k, x) :: kvs, r5)
+                    | .ok (kvs, r5) =>
+                      -- `Decoder.Decode` stores into a Go map: a LATER member with the same key replaces this
+                      -- one, whose value (numbers included) is then never looked at again
+                      if kvs.any (fun e => e.1 == String.ofList k) then .ok (kvs, r5)
+                      else .ok ((String.ofList k, x) :: kvs, r5)
                     | .error e => .error e
                   else if d = '}' then .ok ([(String.ofList k, x)], r4)
                   else .error .other
